@@ -17,7 +17,6 @@ import random
 from collections import Counter
 
 from mc import env  # noqa: F401
-from mc import explore as X
 from mc.ref import ldm_model as R
 from mc.worlds import ldm as L
 from mc.worlds.ldm import APP, LdmWorld, ckey, is_exc
@@ -90,6 +89,8 @@ class StoreModel:
                 continue
             if ev[0] in ("upd", "del") and ev[2] != "x" and ev[2] >= len(w.ids):
                 continue
+            if ev[0] == "maint" and not w.can("maintenance"):
+                continue
             out.append(ev)
         return out
 
@@ -145,9 +146,8 @@ class StoreModel:
         elif op == "add":
             _, app, mname, validity, loc = ev
             msg = self._msg(w, mname)
-            runs = w.trash_probe.count
             got = w.add(app, msg, validity, loc)
-            if w.trash_probe.count > runs:      # the reactive maintenance ran inside this add: it counts as a maintenance run
+            if w.reactive_collected:      # the reactive maintenance ran inside this add (seen by the probe): it counts as a maintenance run
                 ref.maintenance(now)
             registered = app in ref.providers
             exp.update(registered=registered)
@@ -180,9 +180,9 @@ class StoreModel:
         elif op == "adv":
             w.advance(ev[1])
         elif op == "maint":
-            runs = w.trash_probe.count
+            runs = w.trash_probe.count if w.trash_probe else None
             got = w.maintenance()
-            if w.trash_probe.count != runs + 1:
+            if runs is not None and w.trash_probe.count != runs + 1:
                 raise RuntimeError("harness: maintenance probe did not see the explicit run")
             ref.maintenance(w.now)
         else:
@@ -273,6 +273,16 @@ class StoreModel:
                 if d:
                     v("record_mismatch", oid=oid, field=d, loc=r.locname, channel="id", target=exp.get("target"), **res)
 
+        if not id_view_ok and op == "del" and got == 0 and target is not None and any(twin(r) and not r.must_absent() for r in ref.recs.values()):
+            # without the by-id view it cannot be observed WHICH of several identical records a delete removed (deletion is by
+            # record value, C12-K6): the reference cannot follow - prune this branch without a verdict
+            out.append(dict(kind="ambiguous_twin_delete", **base))
+
+        if not id_view_ok and self.consumer not in ref.consumers and op in ("add", "upd", "del", "maint"):
+            # neither the by-id view nor a registered consumer: the effect of this transition on the store cannot be observed
+            # now and would be attributed to a later transition - prune without a verdict
+            out.append(dict(kind="unobservable_transition", **base))
+
         # (3) IF.LDM.4 requests
         recs_bad = any(o["kind"] in ("valid_object_missing", "removed_object_kept", "record_mismatch") for o in out)
         for app in (APP["CAM"], APP["DENM"], APP["BAD"]):
@@ -303,6 +313,14 @@ class StoreModel:
                             must[k] += 1
                 lost = must - have
                 extra = have - may
+                if op == "upd" and (lost or extra) and not any(r.must_absent() and self._rkey(r) in extra for r in ref.recs.values()):
+                    # (only without the by-id view) an update changed a record it should not have changed: same defect class
+                    # as record_mismatch, the differing field cannot be named through the request channel
+                    r = next((r for r in ref.recs.values() if self._rkey(r) in lost), None) or ref.recs.get(exp.get("oid"))
+                    v("record_mismatch", oid=getattr(r, "oid", None), field="?", loc=getattr(r, "locname", None), channel="query",
+                      target=exp.get("target"), **res)
+                    recs_bad = True
+                    continue
                 if lost:
                     r = next(r for r in ref.recs.values() if self._rkey(r) in lost)
                     v("valid_object_missing", oid=r.oid, loc=r.locname, validity=r.validity, age=R.clock(now) - r.added, channel="query",
@@ -330,25 +348,36 @@ class StoreModel:
 
     # -- canonical state -------------------------------------------------------------------------------------------------
     def canon(self, w):
-        """Real store/registries with absolute times replaced by differences to the current clock second, plus the
-        phase of `now` inside its second and the (capped) time since the last reactive collection, plus the reference
-        state.  Two worlds with equal projections differ only by a shift of absolute time by whole seconds, which no
-        LDM code path depends on, so they have equal futures."""
+        """Projection through the PUBLIC interface only (no private attribute is named): the record stored under every
+        identifier ever issued (get_provider_data) with its timestamp relative to the current clock second, the registries
+        (service accessors), the time since the last reactive collection as observed by the probe (capped at the module's
+        TRASH_COLLECTION_INTERVAL), the phase of `now` inside its second, plus the reference state and the identifiers issued.
+        Two worlds with equal projections differ only by a shift of absolute time by whole seconds, which no LDM code path
+        depends on; the identifier counter is a function of the issued identifiers / store, both part of the projection."""
         now = w.now
         frac = round(now - int(now), 3)
-        try:
-            m = w.ldm.ldm_maintenance
-            s = w.ldm.ldm_service
-            db = m.data_containers
-            base = L.its_ms(now)
-            items = []
-            for oid, rec in sorted(db.database.items()):
+        base = L.its_ms(now)
+        items = []
+        for oid in w.ids:                       # the map view through LDMMaintenance.get_provider_data (public)
+            rec = w.get_by_id(oid)
+            if rec == "NOHOOK":
+                items = None
+                break
+            if isinstance(rec, dict):
                 k = self._ikey(rec)
-                items.append((oid, rec["timestamp"] - base, tuple(x for x in k if not (isinstance(x, tuple) and x and x[0] == "timestamp"))))
-            real = (tuple(items), db._next_id, tuple(sorted(s.data_provider_its_aid)), tuple(sorted(s.data_consumer_its_aid)),
-                    min(round(now - m.last_trash_collection_time, 3), 1.0), m.new_data_recieved_flag)
-        except Exception:  # noqa: BLE001 - refactored tree: fall back to the generic digest (finer, still sound)
-            real = ("generic", X.generic_canon(w.ldm), int(now))
+                ts = rec.get("timestamp")
+                items.append((oid, ts - base if isinstance(ts, int) else repr(ts),
+                              tuple(x for x in k if not (isinstance(x, tuple) and x and x[0] == "timestamp"))))
+            elif rec is not None:
+                items.append((oid, "?", repr(L.bounded_digest(rec))))
+        if items is None:                       # no by-id accessor: the multiset of stored records (public get_all_data_containers)
+            allrecs = w.stored()
+            items = ("multiset",) + tuple(sorted(repr(L.bounded_digest(r)) for r in allrecs)) if allrecs is not None else ("unobservable",)
+        regs = w.registries()                   # public accessors of the service
+        real = (tuple(items) if isinstance(items, list) else items,
+                None if regs is None else (tuple(sorted(regs[0])), tuple(sorted(regs[1]))),
+                # time since the last reactive collection as observed through the probe, capped at the collection interval
+                min(round(now - w.last_reactive_trash, 3), L.TRASH_INTERVAL) if w.trash_probe else round(now - w.last_reactive_trash, 3))
         rc = list(w.ref.canon(now, digest=lambda c: self._okey(c, R._digest)))
         rc[2] = tuple(t if t[1] == "gone" else t[:4] + (max(t[4], -1),) + t[5:] for t in rc[2])
         return (real, frac, tuple(rc), tuple(w.ids))
@@ -401,7 +430,7 @@ def _model_for(part_name, tier="quick", seed=0):
 
 
 def run(ctx):
-    states = trans = xchecks = pruned = 0
+    states = trans = xchecks = pruned = ambiguous = 0
     digests, samples, caps = [], [], []
     outcomes = set()
     complete = True
@@ -430,13 +459,16 @@ def run(ctx):
             if sig in seen:
                 continue
             seen.add(sig)
+            if rec["kind"] in ("ambiguous_twin_delete", "unobservable_transition"):      # not a verdict: coverage lost because the by-id accessor is unavailable
+                ambiguous += 1
+                continue
             ctx.violation(rec, replay=dict(part=p["name"], tier=ctx.tier, history=hist))
         ctx.parts[p["name"]] = dict(states=r.states, transitions=r.transitions, max_depth=r.max_depth, depth_bound=p["depth"],
                                     alphabet=len(p["alphabet"]), pruned_successors=r.pruned, xchecks=r.xchecks, outcomes=len(r.outcomes),
                                     graph_closed=r.complete, states_per_depth=r.depth_hist)
     ctx.coverage.update(
         states=states, transitions=trans, traces_validated_against_impl=trans, replay_crosschecks=xchecks,
-        pruned_successors_behind_findings=pruned, distinct_outcomes=len(outcomes), exhaustive=complete, caps=caps, state_digests=digests,
+        pruned_successors_behind_findings=pruned, pruned_ambiguous_without_by_id_view=ambiguous, distinct_outcomes=len(outcomes), exhaustive=complete, caps=caps, state_digests=digests,
         samples=samples[:4] or [[["regp", 2], ["add", 2, "camA", 5, "near"]]],
         explanation=("every transition is one call into the real LDM facility built by LDMFactory (Dictionary back-end, reactive maintenance and "
                      "service) or a virtual clock advance; after every transition unfiltered IF.LDM.4 requests, get_provider_data(id) for every "
